@@ -247,6 +247,13 @@ def gen_spec(rng, thorough, dim=None, npatch=None):
 
 def build_patch(m, p):
     nm, dim, mins, maxs, mp = p
+    if sum(map(ord, nm)) % 3 == 0:
+        # bounds given as numpy scalars, e.g. from np.linspace (seeded change C15-6: they reached the
+        # exported file unconverted and the file could not be read back)
+        import numpy as np
+        mins = [np.float64(a) for a in mins]
+        maxs = [np.float64(a) if i % 2 == 0 else np.float32(a) if float(np.float32(a)) == float(a) else np.float64(a)
+                for i, a in enumerate(maxs)]
     if dim == 1:
         P = m['Line'](nm, bounds=(mins[0], maxs[0]))
     elif dim == 2:
